@@ -9,6 +9,8 @@ NOTE = ("Trusted base: go/types, go/ssa, the VTA/CHA call graph (x/tools v0.29.0
         "it does not execute parsley code.")
 
 CLAIMED = {
+ "C06": dict(ref="§4 C06", technique="error-discipline rule (Engler-style) over all nested parser calls: forward value flow of the error result, guard-vocabulary check of the conditions under which it is kept, sink reachability (returned error / Context.SetError), loop-carried accumulator dependence; provenance rule for error positions",
+   text="Static error-discipline rules deciding, for every grammar and input, that no combinator loses a failure (each nested call's error is kept under error/position conditions only, reaches a returned error or SetError, and accumulated errors are recorded on success) and that error positions are never fabricated by arithmetic. Decides a necessary condition of 'the reported position is the furthest failure'; equality with the maximum and the rendered line:column are not decided."),
  "C13": dict(ref="§4 C13", technique="structural SSA rules over the four tree passes: call-site inventory, argument identity, dominance of guards (guard vocabulary), loop-header dominance of returns, full-range index recognition",
    text="Static structural rules deciding, for every tree shape, that Walk is post-order/exactly-once/abort-immediately (recursion through Walk itself over all children, Walkable delegation), StaticCheck aborts with the first error and records schemas behind err == nil with no foreign guard, Transform delegates to the node's transformer or rebuilds every child in place before returning the node, and Value hands the interpreter the node itself. Foreign node types are assumed to honour Children()/Walk."),
  "C04": dict(ref="§4 C04", technique="path-sensitive nilness abstract interpretation ({nil, non-nil, unknown} over enumerated CFG paths with phi resolution and branch pruning) at the API boundary and in every leaf/filter combinator; dominance checks for End/Evaluate",
